@@ -90,7 +90,7 @@ fn cases() -> Vec<Case> {
             v.push(Case::Int(f, i));
         }
     }
-    for e in ["", " ", "ftp://example.com/x", "mailto:x@example.com", "example.com/push", "HTTP://EXAMPLE.COM", "   http://example.com/push  ", "http", "https://example.com/é", "http://[::1", "httpx"] {
+    for e in ["", " ", "ftp://example.com/x", "mailto:x@example.com", "example.com/push", "HTTP://EXAMPLE.COM", "   http://example.com/push  ", "http", "https://example.com/é", "http://[::1", "httpx", "http//x", "http://", "http://host:99999/x", "http:///path", "https:/one-slash"] {
         v.push(Case::PushEndpoint(e.to_string()));
     }
     for rpc in ["list-topics", "list-subs", "list-topic-subs"] {
@@ -339,6 +339,13 @@ fn unit() -> Unit {
                 }
             }
         };
+        // the push loop is running: let two rounds pass (whatever was registered must not bring it down)
+        {
+            let was = cx.freeze(true);
+            let q = cx.advance_ms(2_100).await;
+            cx.freeze(was);
+            tryv!(q);
+        }
         if malformed && status != "InvalidArgument" {
             return ScenarioOut::viol("malformed-not-INVALID_ARGUMENT", format!("{} is malformed but was answered with {}", label, status));
         }
@@ -394,7 +401,7 @@ fn unit() -> Unit {
         "input/malformed",
         format!("{} malformed / boundary requests (odd names in every name field of every RPC, bad ack ids at every position of a batch, boundary integers, push endpoints, page tokens, inconsistent StreamingPull control messages): status, no panic, no hang, unchanged world on rejection, server still serving", n),
         Bounds::new(0),
-        ExecCfg { points_on: false, max_steps: 200_000, ..Default::default() },
+        ExecCfg { points_on: false, max_steps: 200_000, push_interval_ms: Some(1000), ..Default::default() },
         f,
     )
 }
